@@ -97,6 +97,58 @@ _upd_cases = [_update_graph_case(s, ch, a, b, c) for s in ("open", "closed", "ac
                                 ("internally_closed", "internally_closed", "closed"), ("open", "open", "open"))]
 
 
+# ---------------------------------------------------------------------------- _initialize_internal_graph
+
+def _init_graph_case(s_single, s_a, s_b, reverse_b):
+    """R(2) -S- J0(0) =A,B= J1(1): a single link and a node pair with two parallel links (B optionally drawn J1 -> J0).
+    Statuses are the stored ones (a continued run starts from whatever the paused run left: internally closed links too)."""
+    def build(cx):
+        J0, J1, R = mk_node(cx, Junction, "J0"), mk_node(cx, Junction, "J1"), mk_node(cx, Junction, "R")
+
+        def link(name, st, a, b):
+            u, i = ST[st]
+            return mk_link(cx, PRValve if st == "active_valve" else Pipe, name, a, b, _user_status=u, _internal_status=i)
+        S, A = link("S", s_single, R, J0), link("A", s_a, J0, J1)
+        B = link("B", s_b, J1, J0) if reverse_b else link("B", s_b, J0, J1)
+        links = {"S": S, "A": A, "B": B}
+        wn = WnIso({"J0": J0, "J1": J1, "R": R}, links, {"J0": ["S", "A", "B"], "J1": ["A", "B"], "R": ["S"]})
+        sim = cx.obj(WNTRSimulator, _wn=wn, _int_dtype=np.int64, _node_name_to_id={"J0": 0, "J1": 1, "R": 2},
+                     _node_id_to_name={0: "J0", 1: "J1", 2: "R"})
+        cx.target(WNTRSimulator._initialize_internal_graph, sim)
+
+        def post(out):
+            if not out.returned:
+                return []
+            g = sim.fields["_internal_graph"]
+            dense = g.toarray()
+            single = 0 if _is_closed(s_single) else 1
+            par = 0 if (_is_closed(s_a) and _is_closed(s_b)) else 1
+            want = np.zeros((3, 3), dtype=int)
+            want[0, 2] = want[2, 0] = single
+            want[0, 1] = want[1, 0] = par
+            ndx = sim.fields["_map_link_to_internal_graph_data_ndx"]
+
+            def points_at(k, i, j):     # data index k is the stored entry (i, j) of the csr matrix
+                return g.indptr[i] <= k < g.indptr[i + 1] and g.indices[k] == j
+            ids = {"S": (2, 0), "A": (0, 1), "B": (1, 0) if reverse_b else (0, 1)}
+            ndx_ok = all(points_at(ndx[l][0], *ids[n]) and points_at(ndx[l][1], *ids[n][::-1]) for n, l in links.items())
+            multi = sim.fields["_node_pairs_with_multiple_links"]
+            multi_ok = len(multi) == 1 and list(multi.keys())[0] in ((0, 1), (1, 0)) and \
+                len(list(multi.values())[0]) == 2 and {id(x) for x in list(multi.values())[0]} == {id(A), id(B)}
+            return [("entry_of_a_node_pair_is_1_iff_some_link_between_the_pair_is_not_closed_by_user_or_simulator", bool((dense == want).all())),
+                    ("every_link_is_mapped_to_the_two_stored_entries_of_its_node_pair", bool(ndx_ok)),
+                    ("stored_entries_per_node_are_its_distinct_neighbours", list(sim.fields["_number_of_connections"]) == [2, 1, 1]),
+                    ("node_pairs_with_several_links_listed_once_with_exactly_their_links", bool(multi_ok)),
+                    ("sources_are_the_tanks_and_reservoirs", list(sim.fields["_source_ids"]) == [2])]
+        cx.ensure(post)
+    return Case("single=%s,parallel=%s/%s%s" % (s_single, s_a, s_b, ",B_reversed" if reverse_b else ""), build, crosscheck=False)
+
+
+_init_cases = [_init_graph_case(s, a, b, rev) for s in ("open", "closed", "internally_closed", "active_valve")
+               for a in ("open", "closed", "internally_closed", "active_valve") for b in ("open", "closed", "internally_closed")
+               for rev in (False, True)]
+
+
 # ---------------------------------------------------------------------------- _get_isolated_junctions_and_links
 
 class WnIso(NativeModel):
@@ -113,6 +165,27 @@ class WnIso(NativeModel):
 
     def get_links_for_node(self, n, flag="ALL"):
         return list(self.adj[n])
+
+    def _of(self, *classes):
+        return [(n, l) for n, l in self.links_.items() if issubclass(l.cls, classes)]
+
+    def pipes(self):
+        return self._of(Pipe)
+
+    def pumps(self):
+        return self._of(HeadPump)
+
+    def valves(self):
+        return self._of(PRValve)
+
+    def links(self):
+        return list(self.links_.items())
+
+    def tanks(self):
+        return []
+
+    def reservoirs(self):
+        return [("R", self.nodes_["R"])]
 
 
 def _iso_models(log):
@@ -250,6 +323,12 @@ CONTRACTS = [
              note="one single link + one node pair with three parallel links; every listed status combination; csr data is a symbolic array",
              trusted=["ControlChangeTracker.get_changes('graph') lists the (link, 'status') pairs whose status differs from the reference point (C05)",
                       "_initialize_internal_graph leaves data[ndx] = 1 iff some link of the pair is not closed (bounded stand-in C09.end_to_end)"]),
+    Contract("wntr.sim.core:WNTRSimulator._initialize_internal_graph", P + ["C10"], _init_cases,
+             note="fixed topology (a single link and a node pair with two parallel links, either orientation), every stored-status "
+                  "combination incl. links closed internally by the simulator (the state a paused run leaves); scipy.sparse.csr_matrix and "
+                  "_get_csr_data_index are executed natively on the concrete triplets of each case",
+             trusted=["scipy.sparse.csr_matrix / numpy executed natively on concrete data (not modelled)",
+                      "RegInv (C14): typed iterators and get_links_for_node enumerate the registered links"]),
 ] + _iso_contracts + [
     Contract("wntr.sim.hydraulics:update_model_for_isolated_junctions_and_links", P, _um_cases),
 ]
